@@ -290,6 +290,196 @@ theorem hopeless_counterexample : ¬ ilp_complete_full hopelessInst := by
   obtain ⟨σ, hs, _⟩ := hc hopelessPlan hopelessPlan_valid
   exact hopeless_infeasible σ hs
 
+/-! ### Completeness fails (finding C14-ILP-1): pairwise capacity rows -/
+
+/-- Three independent released tasks at `now = 0` on one worker with 2 CPUs, each needing one
+CPU, all with deadline 11: `A` runs 10 ticks, `B` and `C` run 2 ticks each. -/
+def pairInst : Inst :=
+  { now := 0
+    workers := [⟨"W0", "P0", [("CPU", 2)]⟩]
+    tasks := [⟨"A@G0", "A", 0, "G0", .released, 0, 11, [⟨1, 10, [("CPU", 1)]⟩], 0, 0⟩,
+              ⟨"B@G1", "B", 0, "G1", .released, 0, 11, [⟨1, 2, [("CPU", 1)]⟩], 0, 0⟩,
+              ⟨"C@G2", "C", 0, "G2", .released, 0, 11, [⟨1, 2, [("CPU", 1)]⟩], 0, 0⟩]
+    nOffered := 3
+    nodes := [⟨"A@G0", "A", 0, "G0"⟩, ⟨"B@G1", "B", 0, "G1"⟩, ⟨"C@G2", "C", 0, "G2"⟩]
+    edges := []
+    enforceDeadlines := true, retract := false, releaseTaskgraphs := false, goalSlack := false
+    allowed0 := [] }
+
+/-- `A` over `[1, 11]`, `B` over `[1, 3]`, then `C` over `[4, 6]`: never more than 2 CPUs. -/
+def pairPlan : Plan := [some ⟨0, 0, 1⟩, some ⟨0, 0, 1⟩, some ⟨0, 0, 4⟩]
+
+theorem pairInst_wf : pairInst.wf = true := by decide
+
+/-- In the model, no feasible point places all three tasks: `A`'s row charges it with both
+`B` and `C` because each of them overlaps `A`, although they do not overlap each other. -/
+theorem pair_not_all_placed {σ : Var → Int} (h : sat σ (gen pairInst))
+    (h0 : 1 ≤ psum pairInst σ 0) (h1 : 1 ≤ psum pairInst σ 1) (h2 : 1 ≤ psum pairInst σ 2) : False := by
+  have hwr : pairInst.wfRunning = true := by decide
+  have hwp : pairInst.wfParents = true := by decide
+  have hwc : pairInst.wfChains = true := by decide
+  have pick : ∀ t, t < 3 → 1 ≤ psum pairInst σ t → xval pairInst σ t 0 0 = 1 := by
+    intro t ht hp
+    have htn : t < pairInst.nT := by simpa [Inst.nT, pairInst] using ht
+    obtain ⟨w, s, hw, hs, hx⟩ := exists_pair_of_placed h htn hp
+    have hw0 : w = 0 := by simp [Inst.nW, pairInst] at hw; omega
+    have hs0 : s = 0 := by
+      have : (pairInst.task t).nS = 1 := by
+        have : t = 0 ∨ t = 1 ∨ t = 2 := by omega
+        rcases this with rfl | rfl | rfl <;> decide
+      omega
+    subst hw0; subst hs0; exact hx
+  have x0 := pick 0 (by omega) h0
+  have x1 := pick 1 (by omega) h1
+  have x2 := pick 2 (by omega) h2
+  have r0 : pairInst.running 0 = false := by decide
+  have r1 : pairInst.running 1 = false := by decide
+  have r2 : pairInst.running 2 = false := by decide
+  -- A must start at 1
+  have dA := C12_Ilp.placed_meets_deadline (I := pairInst) h (t := 0) (w := 0) (s := 0) (by decide) (by decide)
+    (by decide) r0 (by decide) x0
+  have lA := start_lb (I := pairInst) h (t := 0) (by decide) r0
+  have dB := C12_Ilp.placed_meets_deadline (I := pairInst) h (t := 1) (w := 0) (s := 0) (by decide) (by decide)
+    (by decide) r1 (by decide) x1
+  have lB := start_lb (I := pairInst) h (t := 1) (by decide) r1
+  have dC := C12_Ilp.placed_meets_deadline (I := pairInst) h (t := 2) (w := 0) (s := 0) (by decide) (by decide)
+    (by decide) r2 (by decide) x2
+  have lC := start_lb (I := pairInst) h (t := 2) (by decide) r2
+  have eA : pairInst.runtime 0 0 = 10 := by decide
+  have eB : pairInst.runtime 1 0 = 2 := by decide
+  have eC : pairInst.runtime 2 0 = 2 := by decide
+  have eL0 : pairInst.startLb 0 = 1 := by decide
+  have eL1 : pairInst.startLb 1 = 1 := by decide
+  have eL2 : pairInst.startLb 2 = 1 := by decide
+  have eD0 : (pairInst.task 0).deadline = 11 := by decide
+  have eD1 : (pairInst.task 1).deadline = 11 := by decide
+  have eD2 : (pairInst.task 2).deadline = 11 := by decide
+  -- B and C both overlap A
+  have actA : ∀ τ, 1 ≤ τ → τ ≤ 11 → active pairInst σ 0 0 τ := by
+    intro τ h1 h2
+    refine ⟨by decide, 0, by decide, x0, ?_, ?_⟩ <;> rw [sval_var r0] <;> omega
+  have actB : active pairInst σ 1 0 (σ (.start 1)) :=
+    ⟨by decide, 0, by decide, x1, by rw [sval_var r1]; omega, by rw [sval_var r1]; omega⟩
+  have actC : active pairInst σ 2 0 (σ (.start 2)) :=
+    ⟨by decide, 0, by decide, x2, by rw [sval_var r2]; omega, by rw [sval_var r2]; omega⟩
+  have oB := overlap_one h hwr hwp hwc (a := 0) (b := 1) (by decide) (by decide) (by decide)
+    (actA _ (by omega) (by omega)) actB
+  have oC := overlap_one h hwr hwp hwc (a := 0) (b := 2) (by decide) (by decide) (by decide)
+    (actA _ (by omega) (by omega)) actC
+  -- A's CPU row: 1 + 1 + 1 ≤ 2
+  have row := resource_row (I := pairInst) (σ := σ) h (t1 := 0) (w := 0) (r := "CPU") (by decide) (by decide)
+    (by decide) (by decide)
+  have eo : pairInst.others 0 0 = [1, 2] := by decide
+  have q0 := qreq_le_dval (I := pairInst) h (t := 0) (w := 0) (s := 0) (by decide) (by decide) (by decide) x0 "CPU"
+  have q1 := qreq_le_dval (I := pairInst) h (t := 1) (w := 0) (s := 0) (by decide) (by decide) (by decide) x1 "CPU"
+  have q2 := qreq_le_dval (I := pairInst) h (t := 2) (w := 0) (s := 0) (by decide) (by decide) (by decide) x2 "CPU"
+  have e0 : qreq pairInst 0 0 "CPU" = 1 := by decide
+  have e1 : qreq pairInst 1 0 "CPU" = 1 := by decide
+  have e2 : qreq pairInst 2 0 "CPU" = 1 := by decide
+  have ecap : qty (pairInst.worker 0).res "CPU" = 2 := by decide
+  rw [eo, ecap] at row
+  simp only [List.map_cons, List.map_nil, isum_cons, isum_nil, oB, oC] at row
+  rw [e0] at q0; rw [e1] at q1; rw [e2] at q2
+  omega
+
+/-- Every feasible point scores at most 2 on `pairInst`. -/
+theorem pair_objective_le_two {σ : Var → Int} (h : sat σ (gen pairInst)) : objective σ (gen pairInst) ≤ 2 := by
+  have hwr : pairInst.wfRunning = true := by decide
+  rw [objective_eq_goodput h hwr (by decide)]
+  by_cases hall : ∀ t, t < 3 → ((planOf pairInst σ).get t).isSome = true
+  · exfalso
+    exact pair_not_all_placed h
+      ((placed_iff h hwr (by decide)).mp (hall 0 (by omega)))
+      ((placed_iff h hwr (by decide)).mp (hall 1 (by omega)))
+      ((placed_iff h hwr (by decide)).mp (hall 2 (by omega)))
+  · -- some task is unplaced, so its (single-task) graph earns nothing
+    have hex : ∃ t, t < 3 ∧ ((planOf pairInst σ).get t).isSome = false := by
+      by_cases hex : ∃ t, t < 3 ∧ ((planOf pairInst σ).get t).isSome = false
+      · exact hex
+      · exfalso; apply hall; intro t ht
+        cases hc : ((planOf pairInst σ).get t).isSome with
+        | true => rfl
+        | false => exact absurd ⟨t, ht, hc⟩ hex
+    obtain ⟨t, ht, hun⟩ := hex
+    have hlen : pairInst.graphs.length = 3 := by decide
+    have hrt : pairInst.rewardTasks (pairInst.graphs.getD t "") = [t] := by
+      have : t = 0 ∨ t = 1 ∨ t = 2 := by omega
+      rcases this with rfl | rfl | rfl <;> decide
+    have hlt : goodput pairInst (planOf pairInst σ) < pairInst.graphs.length := by
+      unfold goodput
+      have := (List.length_filter_lt_length_iff_exists (l := List.range pairInst.graphs.length)
+        (p := fun gi => (pairInst.rewardTasks (pairInst.graphs.getD gi "")).all
+          (fun t => ((planOf pairInst σ).get t).isSome))).mpr
+        ⟨t, List.mem_range.mpr (by omega), by rw [hrt]; simp [hun]⟩
+      simpa using this
+    omega
+
+theorem pairPlan_goodput : goodput pairInst pairPlan = 3 := by decide
+
+theorem pairPlan_valid : ValidPlan pairInst pairPlan where
+  len := by decide
+  running := by
+    intro t ht hr
+    have : t = 0 ∨ t = 1 ∨ t = 2 := by simp [Inst.nT, pairInst] at ht; omega
+    rcases this with rfl | rfl | rfl <;> simp [Inst.running, TaskI.running, Inst.task, pairInst] at hr
+  wf := by
+    intro t pl ht hr hg
+    have : t = 0 ∨ t = 1 ∨ t = 2 := by simp [Inst.nT, pairInst] at ht; omega
+    rcases this with rfl | rfl | rfl
+    · have : pl = ⟨0, 0, 1⟩ := by simpa [Plan.get, pairPlan] using hg.symm
+      subst this; decide
+    · have : pl = ⟨0, 0, 1⟩ := by simpa [Plan.get, pairPlan] using hg.symm
+      subst this; decide
+    · have : pl = ⟨0, 0, 4⟩ := by simpa [Plan.get, pairPlan] using hg.symm
+      subst this; decide
+  deadline := by
+    intro t pl ht hr he hg
+    have : t = 0 ∨ t = 1 ∨ t = 2 := by simp [Inst.nT, pairInst] at ht; omega
+    rcases this with rfl | rfl | rfl
+    · have : pl = ⟨0, 0, 1⟩ := by simpa [Plan.get, pairPlan] using hg.symm
+      subst this; decide
+    · have : pl = ⟨0, 0, 1⟩ := by simpa [Plan.get, pairPlan] using hg.symm
+      subst this; decide
+    · have : pl = ⟨0, 0, 4⟩ := by simpa [Plan.get, pairPlan] using hg.symm
+      subst this; decide
+  required := by
+    intro t ht hs
+    have : t = 0 ∨ t = 1 ∨ t = 2 := by simp [Inst.nT, pairInst] at ht; omega
+    rcases this with rfl | rfl | rfl <;> simp [Inst.task, pairInst] at hs
+  prec := by
+    intro c plc hc hr hg p hp
+    have : c = 0 ∨ c = 1 ∨ c = 2 := by simp [Inst.nT, pairInst] at hc; omega
+    have e0 : pairInst.parentVars 0 = [] := by decide
+    have e1 : pairInst.parentVars 1 = [] := by decide
+    have e2 : pairInst.parentVars 2 = [] := by decide
+    rcases this with rfl | rfl | rfl
+    · simp [e0] at hp
+    · simp [e1] at hp
+    · simp [e2] at hp
+  capacity := by
+    intro w hw r τ
+    have hw0 : w = 0 := by simp [Inst.nW, pairInst] at hw; omega
+    subst hw0
+    have hl : load pairInst pairPlan 0 r τ ≤ 2 * qty [("CPU", 1)] r := by
+      simp only [load, Inst.nT, pairInst, List.length_cons, List.length_nil]
+      simp only [List.range, List.range.loop, List.map, nsum, demandAt, Plan.get, pairPlan,
+        List.getD_cons_zero, List.getD_cons_succ, occupies, finish, Inst.runtime, Inst.task, TaskI.strat,
+        List.getD_cons_zero, List.getD_cons_succ]
+      split <;> split <;> split <;> simp <;> omega
+    have hq : 2 * qty [("CPU", 1)] r ≤ qty (pairInst.worker 0).res r := by
+      simp only [Inst.worker, pairInst, List.getD_cons_zero, qty]
+      cases hb : ("CPU" == r) <;> simp [List.filter, hb, nsum]
+    omega
+
+/-- **Counterexample to completeness** (finding C14-ILP-1, reproduced on the real code by the
+suite): a valid plan finishes 3 graphs, no feasible point of the model scores more than 2. -/
+theorem pairwise_counterexample : ¬ ilp_complete_full pairInst := by
+  intro hc
+  obtain ⟨σ, hs, ho⟩ := hc pairPlan pairPlan_valid
+  have := pair_objective_le_two hs
+  rw [ho, pairPlan_goodput] at this
+  omega
+
 /-! ### Non-vacuity of soundness -/
 
 example : sat C11_Ilp.exSigma (gen C11_Ilp.exInst) := by decide
